@@ -82,6 +82,10 @@ func cliRunner(env *core.Env, flags ...string) toolRunner {
 func judgeModelWith(c *MCase, opts canon.Options, run toolRunner) mverdict {
 	v := mverdict{}
 	cc, err := model.Compile(c.Change)
+	if err == model.ErrMisplacedDots {
+		v.Out = core.Outcome{Skip: "pattern with an elision outside a list (not defined by the properties)"}
+		return v
+	}
 	if err != nil {
 		panic(fmt.Sprintf("generator produced a change the model cannot parse: %v\n%s", err, c.Change.Render()))
 	}
